@@ -6,6 +6,7 @@ package ice
 // (DESIGN.md §4.2). Used by C08, C09, C11b, C18.
 
 import (
+	"sync/atomic"
 	"errors"
 	"fmt"
 	"io"
@@ -235,7 +236,11 @@ func (f *fakeNet) ResolveIPAddr(n, a string) (*net.IPAddr, error)   { return net
 func (f *fakeNet) ResolveUDPAddr(n, a string) (*net.UDPAddr, error) { return net.ResolveUDPAddr(n, a) }
 func (f *fakeNet) ResolveTCPAddr(n, a string) (*net.TCPAddr, error) { return net.ResolveTCPAddr(n, a) }
 
+// fnIfaceCalls counts Interfaces() calls of all fake nets (a test that needs "the monitor has polled" reads the difference).
+var fnIfaceCalls atomic.Int64 //nolint:gochecknoglobals
+
 func (f *fakeNet) Interfaces() ([]*transport.Interface, error) {
+	fnIfaceCalls.Add(1)
 	var out []*transport.Interface
 	f.ifMu.RLock()
 	ifaces := f.ifaces
